@@ -311,6 +311,12 @@ pub fn run_one(run: u64, seed: u64) -> RunOut {
     let mut cfgs: Vec<remoc::Cfg> = (0..4).map(|_| rch_cfg(&mut rng)).collect();
     // The sender transmits pieces of up to chunk_size bytes as messages of their own; an endpoint configured to
     // refuse messages smaller than a chunk (max_data_size < chunk_size) is a configuration mismatch, not a stream.
+    // receive buffers far below the chunk size (every write is split by flow control into many segments)
+    for c in cfgs.iter_mut() {
+        if rng.chance(20) {
+            c.receive_buffer = *rng.pick(&[16u32, 20, 33]);
+        }
+    }
     let max_chunk = cfgs.iter().map(|c| c.chunk_size as usize).max().unwrap();
     for c in cfgs.iter_mut() {
         c.max_data_size = c.max_data_size.max(max_chunk);
